@@ -284,6 +284,22 @@ def wrappers(ctx):
         check_value(ctx, val, case, 'wrapper ' + name)
         check_value(ctx, [val, val], case, 'list of wrapper ' + name)
         check_value(ctx, (val, 1, 'x'), case, 'tuple with wrapper ' + name)
+        # ... in every position: as list element, dictionary value and dictionary KEY the wrapper selects its type
+        for container, want_sig in (([val], 'a' + code), ({'k': val}, 'a{s%s}' % code), ({val: 5}, 'a{%si}' % code),
+                                    ([{val: 'x'}], 'aa{%ss}' % code), (({val: [val]},), '(a{%sa%s})' % (code, code))):
+            if code in 'v' or (isinstance(container, dict) and val in container and code == 'd'):
+                continue
+            try:
+                got = M.sigFromPy(container)
+            except Exception as e:
+                got = repr(e)
+            ctx.count('evaluations')
+            ctx.count('wrapper_position_cases')
+            if got != want_sig:
+                ctx.report('wrapper-type', 'wrapper %s inside %r: inferred %r, the wrapper selects %r' % (
+                    name, type(container).__name__, got, want_sig), {'value': repr(container)}, case)
+            else:
+                check_value(ctx, container, case, 'wrapper %s in a %s' % (name, type(container).__name__))
     # sizes around the one-byte length of a SIGNATURE: wrapper values and inferred signatures of 126..255 characters
     for n in (126, 127, 128, 129, 200, 254, 255):
         case = {'kind': 'long-signature', 'n': n}
